@@ -91,6 +91,7 @@ void onIterEnd(void* c, const randomx_verif::IterInfo& info) {
 }
 
 RXV_SUBCOMMAND(c05) {
+	runWatchdogKey() = "C05:watchdog:program-execution-did-not-return";
 	Rng rng(args.seed, 0xc05, args.shard);
 	const bool thorough = args.thorough();
 	const uint64_t nSeq = args.num("steps", thorough ? 3000000 : 300000);    // workload A: instruction sequences
